@@ -118,11 +118,11 @@ AdmissibleStep(ctx, mayDot, ab, X) ==
 (* For the operations with directory meaning a list made of one empty segment and  *)
 (* the empty list are the same directory ("/./" = "/", "./" = ""): the abstract    *)
 (* value may be either, and a behaviour forks on which one the implementation has. *)
-LoneAlts(X, lone) ==
+LoneAlts(X, lone, mayDot) ==
     IF lone /\ (DropLeadDot(X) = <<>> \/ DropLeadDot(X) = << <<>> >>)
     THEN {<<>>, << <<>> >>}
          \* a "." left over in front of nothing is either a spent shield or a segment of its own
-         \cup (IF X # <<>> /\ X[1] = DOT THEN {<<DOT>>, <<DOT, <<>>>>} ELSE {})
+         \cup (IF mayDot \/ (X # <<>> /\ X[1] = DOT) THEN {<<DOT>>, <<DOT, <<>>>>} ELSE {})
     ELSE {X}
 
 (* The abstract results of an operation.  For the symbolic operations the final   *)
@@ -131,20 +131,20 @@ LoneAlts(X, lone) ==
 (* both outcomes are results; together with LoneAlts a behaviour forks on them.   *)
 IsLone(X) == DropLeadDot(X) = <<>> \/ DropLeadDot(X) = << <<>> >>
 \* set-valued symbolic fold: after a ".." the list may read either way when it is lone
-SymStepSet(ab, st, s) ==
+SymStepSet(ab, st, s, mayDot) ==
     LET n == SymStep(ab, st, s)
-    IN  IF s = DOTDOT THEN {<<A, n[2]>> : A \in LoneAlts(n[1], TRUE)} ELSE {n}
-RECURSIVE SymFoldSet(_, _, _)
-SymFoldSet(ab, S, ss) ==
-    IF ss = <<>> THEN S ELSE SymFoldSet(ab, UNION {SymStepSet(ab, st, Head(ss)) : st \in S}, Tail(ss))
-ResultsOf(ab, X, op) ==
+    IN  IF s = DOTDOT THEN {<<A, n[2]>> : A \in LoneAlts(n[1], TRUE, mayDot)} ELSE {n}
+RECURSIVE SymFoldSet(_, _, _, _)
+SymFoldSet(ab, S, ss, mayDot) ==
+    IF ss = <<>> THEN S ELSE SymFoldSet(ab, UNION {SymStepSet(ab, st, Head(ss), mayDot) : st \in S}, Tail(ss), mayDot)
+ResultsOf(ab, X, op, mayDot) ==
     IF op[1] \in {"sym_push", "sym_append"}
     THEN LET ss == IF op[1] = "sym_push" THEN <<op[2]>> ELSE op[2]
-             R  == SymFoldSet(ab, {<<X, FALSE>>}, ss)
+             R  == SymFoldSet(ab, {<<X, FALSE>>}, ss, mayDot)
          IN  UNION {IF r[2] /\ IsLone(r[1]) THEN {r[1], Append(r[1], <<>>)}
                     ELSE IF r[2] THEN {Append(r[1], <<>>)} ELSE {r[1]} : r \in R}
     ELSE {ApplyPathOp(ab, X, op)}
-AltsOf(ab, X, op) == UNION {LoneAlts(Y, LoneOk(op[1])) : Y \in ResultsOf(ab, X, op)}
+AltsOf(ab, X, op, mayDot) == UNION {LoneAlts(Y, LoneOk(op[1]), mayDot) : Y \in ResultsOf(ab, X, op, mayDot)}
 
 (***************************************************************************)
 (* C11: authority editing through a handle with a window <<start, len>>    *)
@@ -189,6 +189,6 @@ EditApply(fam, k, w, o) ==
           [] OTHER ->
                 LET ab == AbsOf(ctx, P.path)
                 IN  UNION {{Embed(ctx, c) : c \in AdmissibleStep(ctx, HasLeadDot(P.path), ab, A)}
-                           : A \in AltsOf(ab, Segs(P.path), PathOpOf(o))}
+                           : A \in AltsOf(ab, Segs(P.path), PathOpOf(o), HasLeadDot(P.path))}
 
 =============================================================================
